@@ -288,6 +288,7 @@ fn verif_harness_ext(toks: &[&str]) -> String {
                 prefix_err: g("pfx", "2").parse().unwrap(),
                 max_invalid: g("inv", "5").parse().unwrap(),
                 preamble_err: g("pre", "2").parse().unwrap(),
+                squelch: kv(rest, "sqopen").map(|o| (o.parse().unwrap(), g("sqclose", "0").parse().unwrap())),
             };
             let p = Params {
                 rate: cfg.rate,
@@ -530,6 +531,7 @@ fn verif_harness_ext(toks: &[&str]) -> String {
                 prefix_err: g("pfx", "2").parse().unwrap(),
                 max_invalid: g("inv", "5").parse().unwrap(),
                 preamble_err: g("pre", "2").parse().unwrap(),
+                squelch: kv(rest, "sqopen").map(|o| (o.parse().unwrap(), g("sqclose", "0").parse().unwrap())),
             };
             let p = Params {
                 rate: cfg.rate,
@@ -559,6 +561,7 @@ fn verif_harness_ext(toks: &[&str]) -> String {
                 prefix_err: g("pfx", "2").parse().unwrap(),
                 max_invalid: g("inv", "5").parse().unwrap(),
                 preamble_err: g("pre", "2").parse().unwrap(),
+                squelch: kv(rest, "sqopen").map(|o| (o.parse().unwrap(), g("sqclose", "0").parse().unwrap())),
             };
             let p = Params {
                 rate: cfg.rate,
